@@ -108,19 +108,26 @@ def _check_set_value(ctx, repo, sv: FuncInfo):
     ctx.touch(sv)
     p_vals, p_rel = sv.params[1], sv.params[2]
     ff = FuncFacts(sv.node)
+    # the function is executed by cases on the kind of `var_values` (list / dict / anything else): whatever the arrangement of the tests
+    # (if / elif, guard clause first, shared tail), each kind yields the straight-line sequence of statements that runs for it
+    from ..facts import exec_under
     branches = {}
-    for st in sv.node.body:
-        node = st
-        while isinstance(node, ast.If):
-            t = norm(node.test)
+    outcomes = {}
+    for kind in ("list", "dict", "other"):
+        def atom(e, kind=kind):
+            t = norm(e)
             if t == f"isinstance({p_vals}, list)":
-                branches["list"] = node.body
-            elif t == f"isinstance({p_vals}, dict)":
-                branches["dict"] = node.body
-            node = node.orelse[0] if len(node.orelse) == 1 and isinstance(node.orelse[0], ast.If) else None
+                return kind == "list"
+            if t == f"isinstance({p_vals}, dict)":
+                return kind == "dict"
+            return None
+        eff, k = exec_under([s_ for s_ in sv.node.body if not (isinstance(s_, ast.Expr) and isinstance(s_.value, ast.Constant))], atom, opaque=True)
+        outcomes[kind] = k
+        if kind != "other" and k == "return":
+            branches[kind] = eff
     if set(branches) != {"list", "dict"}:
         ctx.bad("R-SIBLING", "set_value_for_assignment: list and dict forms", sv, sv.node,
-                f"both assignment forms must be handled, found branches for {sorted(branches)}")
+                f"both assignment forms must be handled, found branches for {sorted(branches)} (outcomes {outcomes})")
         return
     shapes = {}
     for kind, body in branches.items():
@@ -155,6 +162,11 @@ def _check_set_value(ctx, repo, sv: FuncInfo):
         ctx.check(oki, "R-SIBLING", f"set_value[{kind}]: index = _slice_matrix(all dimension names, values)[1]", sv, sl[0] if sl else node,
                   "the cell index must be computed by _slice_matrix over all dimension names")
         if kind == "list":
+            # straight-line copies (`values = var_values`) are followed back
+            for _i in range(3):
+                cp_ = [n for n in body if isinstance(n, ast.Assign) and len(n.targets) == 1 and norm(n.targets[0]) == values_expr and isinstance(n.value, ast.Name)]
+                if values_expr != p_vals and len(cp_) == 1 and sl and body.index(cp_[0]) < body.index(sl[0]):
+                    values_expr = cp_[0].value.id
             ctx.check(values_expr == p_vals, "R-SIBLING", "set_value[list]: values are the given list", sv, sl[0] if sl else node,
                       "the list form must use the given values in dimension order")
         else:
@@ -183,9 +195,7 @@ def _check_set_value(ctx, repo, sv: FuncInfo):
         ctx.check(okr, "R-SIBLING", f"set_value[{kind}]: returns a new relation (same variables, new table, same name)", sv,
                   rets[0] if rets else body[-1], "the result must be NAryMatrixRelation(self._variables, <copied table>, name=self.name)")
         shapes[kind] = (idx, val)
-    tail = sv.node.body[-1]
-    ctx.check(isinstance(tail, ast.Raise) or any(isinstance(s, ast.Raise) for s in ast.walk(tail) if isinstance(tail, ast.If)),
-              "R-SIBLING", "set_value: other assignment kinds rejected", sv, tail, "anything but list/dict must raise")
+    ctx.check(outcomes["other"] == "raise", "R-SIBLING", "set_value: other assignment kinds rejected", sv, sv.node.body[-1], "anything but list/dict must raise")
 
 
 def _relation_classes(repo, m: ModuleInfo):
